@@ -5,7 +5,7 @@
    footprint level (known finding C10/unlocked-wrapper-reads); the Go memory
    model is outside the model. *)
 From Stackage Require Import Base Generated StackImpl StackSpec StackRefine Conc ConcProofs.
-From Stackage Require Import Guard GuardLock GeneratedIR GuardLockProps.
+From Stackage Require Import Guard GuardLock GeneratedIR GuardProps GuardLockProps.
 Open Scope Z_scope.
 
 (* For ANY number of goroutines, ANY programs built from Push, Pop, Insert,
@@ -108,6 +108,18 @@ Print Assumptions c10_content_writes_under_lock.
 Theorem c10_all_eight_mutators_are_checked : lock_mutators_present = true.
 Proof. vm_compute. reflexivity. Qed.
 Print Assumptions c10_all_eight_mutators_are_checked.
+
+(* the discipline is not special to the eight: every exported method of
+   Stack and Condition keeps it on every path, except Stack.Defrag (its worker
+   truncates the slice after implode has released the lock; Defrag is not one
+   of the calls this property names) *)
+Theorem c10_every_method_keeps_lock_discipline :
+  forall e, In e ir_entries -> is_inst_class e = true -> named lock_exceptions e = false ->
+    exists body, Guard.lookup ir_table (en_fid e) = Some body /\
+      forall tr o, exec (Guard.lookup ir_table) env_init false body tr o ->
+        disciplined false tr /\ held_after false tr = false.
+Proof. apply lockset_all_static. vm_compute. reflexivity. Qed.
+Print Assumptions c10_every_method_keeps_lock_discipline.
 
 (* "... and to the lock bookkeeping": the only functions storing into the
    bookkeeping field are stack.lock and stack.unlock; inside stack.lock every
